@@ -113,6 +113,58 @@ def _overflow(ctx, branch_exprs, site):
     ctx.floor("R6", 1)
 
 
+strip = lambda c_: c_[1:-1] if c_.startswith('"') else c_
+
+
+def _parents(ctx, names, col_of, site):
+    """The records the package's own reader serves for the whole of activation.dat (interpreted, not executed): in every
+    'b' / '2n' record the parent half-life is the half-life of a capture product of the same element - the record of the
+    intermediate nuclide - whatever the layout of the file and however the reader finds it."""
+    w = World(ctx.src, loaders=())
+    I = w.I
+    text = ctx.src.data_file("periodictable/activation.dat")
+    lines = text.split("\n")
+    nrow = 0
+    for ln in lines:
+        r = ln.split("\t")
+        if len(r) < len(names) or r[0].strip() in ("", "xx"):
+            continue
+        try:
+            a_ = int(r[col_of["A"]])
+        except (ValueError, KeyError):
+            continue
+        w.isotope(strip(r[col_of["symbol"]]), a_)
+        nrow += 1
+    I.builtins["open"] = Builtin("open", lambda *a, **k: TextFile([l_ + "\n" for l_ in lines], "activation.dat"))
+    I.stubs["core.get_data_path"] = lambda I_, a, k: "/data"
+    try:
+        I.call(I.global_name("activation", "init"), [w.table], {})
+    except SymRaise as exc:
+        ctx.fail("R5", "activation.init reads the package's activation.dat", f"raises {exc}", site)
+        return
+    by_el = {}
+    for oid, h in I.heap.items():
+        recs = h.get("neutron_activation") if isinstance(h, dict) else None
+        if isinstance(recs, list) and "isotope" in h and "element" in h:
+            by_el.setdefault(h["element"].id, []).extend(I.heap[r_.id] for r_ in recs)
+    bad, nchain = [], 0
+    fl = lambda v: float(sp.sympify(v))
+    for recs in by_el.values():
+        direct = [r_ for r_ in recs if r_.get("reaction") not in ("b", "2n")]
+        for r_ in recs:
+            if r_.get("reaction") in ("b", "2n"):
+                nchain += 1
+                try:
+                    tp = fl(r_.get("Thalf_parent"))
+                    ok = any(abs(fl(p_.get("Thalf_hrs")) - tp) <= 1e-6 * fl(p_.get("Thalf_hrs")) for p_ in direct)
+                except (TypeError, ValueError):
+                    ok = False
+                if not ok:
+                    bad.append(f"{r_.get('isotope')} => {r_.get('daughter')} ('{r_.get('reaction')}'): parent half-life {r_.get('Thalf_parent')} h")
+    ctx.check(not bad and nchain >= 80, "R5", "every 'b' / '2n' record: the parent half-life served is the half-life of a capture product of the same element",
+              f"{len(bad)} of {nchain} records: {bad[:4]}", "periodictable/activation.dat (through activation.init)", sample={"records": nrow, "chains": nchain})
+
+
 def run(ctx):
     P = lambda n: sp.Symbol(n, positive=True)
     t, T, m = P("t"), P("T"), P("mass")
@@ -183,7 +235,7 @@ def run(ctx):
                       f"degree {deg} in mass", site)
     ctx.floor("R1", 24)
     ctx.floor("R2", 9)
-    _overflow(ctx, branch_exprs, site)
+    overflow_site = site
 
     # ---- R3 guards ------------------------------------------------------------------
     w, iso, rec, env = make(ctx, "act", True, 0, 0)
@@ -215,6 +267,8 @@ def run(ctx):
     _r4(ctx)
     # ---- R5 reader and data -----------------------------------------------------------
     _r5(ctx)
+    # (after the reader rules: R6 reads the data file by the documented column names)
+    _overflow(ctx, branch_exprs, overflow_site)
     ctx.assume("exp/expm1/log are the mathematical functions (float rounding is not modelled)")
 
 
@@ -223,7 +277,8 @@ def _r4(ctx):
     P = lambda n: sp.Symbol(n, positive=True)
     calls = []
 
-    G = sp.Function("g_rest", positive=True)
+    G = lambda iso_: sp.Symbol("K_" + iso_.name.replace("#", ""), positive=True)      # activity per gram at removal (opaque)
+    decay = lambda iso_, T_: sp.exp(-sp.log(2) / P("Th_" + iso_.name.replace("#", "")) * T_)
     sig = [a.arg for a in ctx.src.func("activation.activity").node.args.args]
 
     def fake_activity(I_, args, kw):
@@ -231,7 +286,19 @@ def _r4(ctx):
         bound = dict(zip(sig, args)); bound.update(kw)
         iso, mass = args[0], args[1]
         calls.append((iso, mass))
-        return {iso: [mass * G(sp.sympify(T)) for T in iterate(I_, bound["rest_times"])]}
+        # the product is a record like the ones activity() returns (decay constant ln2/Th_<isotope>, so that code which
+        # decays a stored activity itself is followed as well); g_rest is the opaque decay over the rest time
+        if iso.id not in product:
+            AR_ = I_.get_class("activation.ActivationResult")
+            product[iso.id] = new_record(I_, AR_, dict(
+                fast=False, thermalXS=P("xs"), resonance=P("res"), Thalf_hrs=P("Th_" + iso.name.replace("#", "")), reaction="act",
+                Thalf_parent=sp.Integer(0), thermalXS_parent=sp.Integer(0), resonance_parent=sp.Integer(0), daughter="X-" + iso.name, isotope=iso.name,
+                comments="", Thalf_str="1 h", isomer="", symbol="X", A=sp.Integer(1), Z=sp.Integer(1), abundance=sp.Integer(100),
+                gT=sp.Integer(1), percentIT=sp.Integer(0)), "product_" + iso.name)
+            owner[product[iso.id].id] = iso
+        lam_ = sp.log(2) / P("Th_" + iso.name.replace("#", ""))
+        return {product[iso.id]: [mass * G(iso) * sp.exp(-lam_ * sp.sympify(T)) for T in iterate(I_, bound["rest_times"])]}
+    product, owner = {}, {}
     w = world(ctx, stubs={"activation.activity": fake_activity})
     I, A = w.I, w.atoms
     Fe, Fe56, O = A["element"], A["isotope"], A["element2"]
@@ -249,6 +316,8 @@ def _r4(ctx):
     smp = I.instantiate(S, [comp, M], {}, name="sample", open_attrs=())
     I.call(I.getattr(smp, "calculate_activation"), [I.new_obj("env")], {"exposure": P("t"), "rest_times": [sp.Integer(0), P("T")]})
     act = I.getattr(smp, "activity")
+    if isinstance(act, dict):
+        act = {owner.get(getattr(k_, "id", None), k_): v_ for k_, v_ in act.items()}
     mf = I.getattr(comp, "mass_fraction")
     ab = lambda tag: sp.Symbol(f"ab_{tag}", positive=True)
     site = fsite(ctx, "activation.Sample.calculate_activation")
@@ -264,9 +333,31 @@ def _r4(ctx):
                 if len(act[iso]) != 2:
                     continue
                 eq(ctx, "R4", f"mass handed to activity() for {iso.name}: mass * mass fraction [* abundance/100], summed per product",
-                   act[iso][0], wv * G(0), site)
-                eq(ctx, "R4", f"accumulation is per rest time for {iso.name}", act[iso][1], wv * G(P("T")), site)
-    ctx.floor("R4", 10)
+                   act[iso][0], wv * G(iso), site)
+                eq(ctx, "R4", f"accumulation is per rest time for {iso.name}", act[iso][1], wv * G(iso) * decay(iso, P("T")), site)
+    # the same Sample asked again: another abundance function, another mass - nothing of the first answer is reused
+    tagof = {Fe54.id: "Fe54", Fe56.id: "Fe56", O16.id: "O16"}
+    ab2 = Builtin("abundance2", lambda iso_: sp.Symbol(f"ab2_{tagof.get(iso_.id, iso_.name)}", positive=True))
+    for what, kw2, abf, mass2 in (("another abundance function", {"abundance": ab2}, lambda tag: sp.Symbol(f"ab2_{tag}", positive=True), M),
+                                  ("another sample mass", {}, ab, P("M2"))):
+        if mass2 is not M:
+            I.setattr(smp, "mass", mass2)
+        rr = raises(lambda: I.call(I.getattr(smp, "calculate_activation"), [I.new_obj("env")],
+                                   dict(kw2, exposure=P("t"), rest_times=[sp.Integer(0), P("T")])))
+        if rr:
+            ctx.fail("R4", f"the same Sample recalculated with {what}", f"raises {rr}", site)
+            continue
+        act2 = I.getattr(smp, "activity")
+        act2 = {owner.get(getattr(k_, "id", None), k_): v_ for k_, v_ in act2.items()} if isinstance(act2, dict) else act2
+        want2 = {Fe54: mass2 * mf[Fe] * abf("Fe54") / 100, Fe56: mass2 * mf[Fe] * abf("Fe56") / 100 + mass2 * mf[Fe56],
+                 O16: mass2 * mf[O] * abf("O16") / 100}
+        if not isinstance(act2, dict) or set(act2) != set(want2):
+            ctx.fail("R4", f"the same Sample recalculated with {what}", f"products {_s(act2)}", site)
+            continue
+        for iso, wv in want2.items():
+            if len(act2[iso]) == 2:
+                eq(ctx, "R4", f"the same Sample recalculated with {what}: activity of {iso.name} at removal", act2[iso][0], wv * G(iso), site)
+    ctx.floor("R4", 16)
 
 
 # (numeric cells in the notations the real table uses: plain decimals, exponents with a sign, upper- and lower-case E)
@@ -403,5 +494,6 @@ def _r5(ctx):
         ctx.check(got2.get("gT") == 0 and got2.get("percentIT") == 0, "R5", "blank numeric cells are served as 0",
                   f"gT = {got2.get('gT')!r}, percentIT = {got2.get('percentIT')!r}", site)
     ctx.check("neutron_activation" in I.heap[w.table.id].get("properties", []), "R5", "init marks the table as loaded", "not marked", site)
-    ctx.floor("R5", 40)
+    _parents(ctx, names, col_of, site)
+    ctx.floor("R5", 41)
     ctx.extra["exhaustive"] = True
